@@ -81,13 +81,14 @@ func (ledger *FinalityLedger[T]) GetFinality(key LedgerKey) (T, xerrors.XError) 
 func (ledger *FinalityLedger[T]) getFinality(key LedgerKey) (T, xerrors.XError) {
 	var emptyNil T
 
+	// an item which is set again after being removed is found here
+	if item, ok := ledger.finalityItems.getGotItem(key); ok {
+		return item, nil
+	}
+
 	// if the item is already removed, return xerrors.ErrNotFoundResult
 	if ledger.finalityItems.isRemovedKey(key) {
 		return emptyNil, xerrors.ErrNotFoundResult
-	}
-
-	if item, ok := ledger.finalityItems.getGotItem(key); ok {
-		return item, nil
 	}
 
 	if item, xerr := ledger.read(key); xerr != nil {
